@@ -28,6 +28,13 @@ pub trait SimdOp {
 /// This function will check the available SIMD instruction sets and then
 /// dispatch to [`SimdOp::eval`], passing the selected [`Isa`].
 pub fn dispatch<Op: SimdOp>(op: Op) -> Op::Output {
+    // Verification builds always use the portable ISA: CPU feature detection
+    // uses inline assembly, which the model checker cannot execute.
+    #[cfg(kani)]
+    {
+        return op.eval(super::arch::generic::GenericIsa::new());
+    }
+
     #[cfg(target_arch = "aarch64")]
     if let Some(isa) = super::arch::aarch64::ArmNeonIsa::new() {
         return op.eval(isa);
